@@ -1,2 +1,63 @@
+//! C20 (determinism) and C18 (markup round trips).
+use crate::rawabs::*;
+use crate::util::*;
 use crate::CmdFn;
-pub fn commands() -> Vec<(&'static str, CmdFn)> { vec![] }
+use layout21raw as raw;
+use serde_json::{json, Value};
+use std::collections::hash_map::DefaultHasher;
+use std::hash::{Hash, Hasher};
+
+pub fn commands() -> Vec<(&'static str, CmdFn)> {
+    let mut v: Vec<(&'static str, CmdFn)> = vec![("determinism", determinism)];
+    v.extend(crate::serde18::commands());
+    v
+}
+
+fn digest(s: &str) -> String {
+    // a fixed-key hasher: the digest itself must not depend on the process
+    let mut h = DefaultHasher::new();
+    s.hash(&mut h);
+    format!("{:016x}:{}", h.finish(), s.len())
+}
+
+/// One conversion of one input, `n` times in this process: {conv, input, n} -> digests of the full ordered output
+fn determinism(case: &Value) -> Value {
+    let conv = gets(case, "conv");
+    let n = geti(case, "n");
+    let mut digests = Vec::new();
+    let mut first_out = String::new();
+    for k in 0..n {
+        let out: Result<String, String> = match conv {
+            "gds2raw" => {
+                let g = crate::rawcmds::simple_gds(&case["input"]);
+                raw::Library::from_gds(&g, None).map_err(err_str).and_then(|l| crate::rawcmds::raw_cells_json(&l)).map(|v| v.to_string())
+            }
+            "raw2gds" => raw_lib_of(&case["input"]).to_gds().map_err(err_str).map(|mut g| {
+                g.set_all_dates(gds21::GdsDateTime { year: 100, month: 1, day: 1, hour: 0, minute: 0, second: 0 });
+                format!("{:?}", g)
+            }),
+            "raw2proto" => raw_lib_of(&case["input"]).to_proto().map_err(err_str).map(|p| format!("{:?}", p)),
+            "raw2lef" => raw::lef::LefExporter::export(&raw_lib_of(&case["input"])).map_err(err_str).map(|l| format!("{:?}", l)),
+            "lef2raw" => {
+                let text = crate::lefabs::render(geta(&case["input"], "toks"), 0, 0, 0);
+                lef21::verif::parse_str(&text).map_err(err_str)
+                    .and_then(|l| raw::lef::LefImporter::import(&l, None).map_err(err_str))
+                    .and_then(|rl| raw_lib_json(&rl))
+                    .map(|v| v.to_string())
+            }
+            "lef2raw2lef" => {
+                let text = crate::lefabs::render(geta(&case["input"], "toks"), 0, 0, 0);
+                lef21::verif::parse_str(&text).map_err(err_str)
+                    .and_then(|l| raw::lef::LefImporter::import(&l, None).map_err(err_str))
+                    .and_then(|rl| raw::lef::LefExporter::export(&rl).map_err(err_str))
+                    .map(|l| format!("{:?}", l))
+            }
+            "tetris2raw" => crate::tetris2::compile_digest(&case["input"]),
+            _ => panic!("harness: conversion {conv}"),
+        };
+        let s = match out { Ok(s) => s, Err(e) => format!("ERR:{e}") };
+        if k == 0 { first_out = s.chars().take(300).collect(); }
+        digests.push(digest(&s));
+    }
+    json!({"id": id(case), "outcome":"ok", "digests": digests, "pid": std::process::id(), "first": first_out})
+}
